@@ -9,7 +9,8 @@
  *                       { uint32 width; uint32 depth; int64 elements_added; } (16 bytes)
  *   Expanding/rotating: per filter { uint64 elements_added; ceil(m/8) bytes } +
  *                       { uint64 filters; uint64 estimated_elements; uint64 elements_added; float fpr; } (28 bytes)
- *   Cuckoo            : capacity*bucket_size uint32 fingerprints (0 = empty, zero padded per bucket)
+ *   Cuckoo            : capacity*bucket_size uint32 fingerprints (0 = empty, zero padded per bucket; a key whose
+ *                       low hash bits are 0 uses fingerprint 1)
  *                       + { uint32 bucket_size; uint32 max_swaps; }
  *   Counting cuckoo   : capacity*bucket_size { uint32 fingerprint; uint32 count; } + same footer
  *   hashing           : h_i(key) = FNV-1a-64(key) with offset basis 14695981039346656037 + 31*i,
@@ -330,6 +331,7 @@ int64_t ref_cuckoo_check(const uint8_t *f, size_t len, int counting, uint32_t fp
   if (capacity == 0) return -12;
   uint64_t h = ref_fnv1a64(key, klen, FNV64_BASIS);
   uint32_t fp = fp_bits >= 32 ? (uint32_t)h : (uint32_t)(h & ((1ULL << fp_bits) - 1));
+  if (fp == 0) fp = 1; /* 0 marks an empty slot, so it is never used as a fingerprint */
   char txt[16];
   int tl = 0;
   {
